@@ -24,7 +24,7 @@ from vcdd.oracle.ircmp import canon
 KINDS = ("function_parse_partial", "emit_class", "emit_function", "emit_argparse", "emit_sqlalchemy", "emit_docstring",
          "json_schema", "infer_imports", "merge_assignment_lists", "gen_file", "gen_file_imports", "doctrans",
          "openapi", "class_parse", "sync_properties", "optimise_imports", "emit_sqlalchemy_custom", "docstring_parse",
-         "function_parse_footer", "gen_phase1", "json_schema_set_default", "gen_file_infer", "gen_dir", "gen_imports_from_file", "shared_ir", "emit_after_parse")
+         "function_parse_footer", "gen_phase1", "json_schema_set_default", "gen_file_infer", "gen_dir", "gen_imports_from_file", "shared_ir", "emit_after_parse", "gen_routes_upsert")
 
 # a small shared pool of type names the converters have no table entry for: a later case meets names an earlier
 # (or an interleaved, unrelated) conversion has already seen - what a module-level table that learns would change
@@ -368,6 +368,27 @@ def run_case(kind, r, tmp):
                                                                        name=nm), "json_schema")[0],
                                  route="/api/%s" % nm.lower(), id="%s_id" % nm.lower(),
                                  crud=r.choice(("CRD", "CR", "C", "RD", "D", "R"))) for nm in names]))
+    if kind == "gen_routes_upsert":
+        # routes written in two steps: a file that holds some of a model's routes, then the command asked for all of them
+        # (what is missing is appended - in an order that must not be a set's)
+        import cdd.__main__
+
+        nm = r.choice(("Config", "Node", "UserProfile"))
+        ir = irgen.rand_ir(r, nparams=r.randint(2, 4), type_kinds=("int", "str", "float"), default_kinds=("absent", "int", "str"),
+                           suffix_defaults=False, with_return=False, name=nm)
+        k0 = list(ir["params"])[0]
+        ir["params"][k0] = {"doc": "[PK] " + ir["params"][k0]["doc"], "typ": "int"}
+        mp, rp = os.path.join(tmp, "models.py"), os.path.join(tmp, "routes.py")
+        with open(mp, "w") as f:
+            f.write("from sqlalchemy import Column, Integer, String, Float\n\n\n" + hops.emit(ir, "sqlalchemy")[1] + "\n")
+        first, then = r.choice((("C", "CRD"), ("C", "CRD"), ("C", "CRD"), ("R", "CRD"), ("D", "CRD"), ("C", "CR"), ("C", "CD")))
+        out = []
+        for crud in (first, then):
+            cdd.__main__.main(["gen_routes", "--crud", crud, "--app-name", "rest_api", "--model-path", mp, "--model-name", nm,
+                               "--routes-path", rp, "--route", "/api/%s" % nm.lower()])
+            with open(rp) as f:
+                out.append(f.read())
+        return "\n# ======\n".join(out)
     if kind == "class_parse":
         import cdd.class_.parse
 
